@@ -118,6 +118,7 @@ package cty
 //@   ensures[C02] known: (=> (and (is_bool_ty t) (kn val)) (bool_payload result (not (bool_of val))))
 //@   ensures[C01] unknown: (=> (or (is_dyn_ty t) (not (is_known val))) (not (is_known result)))
 //@   ensures[C04] marks_kept: (forall ((k Any)) (! (=> (select (marks_of val) k) (select (marks_of result) k)) :pattern ((select (marks_of result) k))))
+//@   ensures[C04] nomarks: (=> (not (is_marked val)) (not (is_marked result)))
 //@   ensures[C06] wf: (wf_deep result)
 //
 //@ func (cty.Value).And
@@ -132,6 +133,7 @@ package cty
 //@   ensures[C01] absorbing: (=> (and sc (or (and (is_bool_ty t) (kn val) (not (bool_of val))) (and (is_bool_ty ot) (kn other) (not (bool_of other))))) (bool_payload result false))
 //@   ensures[C01] unknown: (=> (and sc (not (and (is_bool_ty t) (kn val) (not (bool_of val)))) (not (and (is_bool_ty ot) (kn other) (not (bool_of other))))) (not (is_known result)))
 //@   ensures[C04] marks_kept: (forall ((k Any)) (! (=> (or (select (marks_of val) k) (select (marks_of other) k)) (select (marks_of result) k)) :pattern ((select (marks_of result) k))))
+//@   ensures[C04] nomarks: (=> (and (not (is_marked val)) (not (is_marked other))) (not (is_marked result)))
 //@   ensures[C06] wf: (wf_deep result)
 //
 //@ func (cty.Value).Or
@@ -146,13 +148,17 @@ package cty
 //@   ensures[C01] absorbing: (=> (and sc (or (and (is_bool_ty t) (kn val) (bool_of val)) (and (is_bool_ty ot) (kn other) (bool_of other)))) (bool_payload result true))
 //@   ensures[C01] unknown: (=> (and sc (not (and (is_bool_ty t) (kn val) (bool_of val))) (not (and (is_bool_ty ot) (kn other) (bool_of other)))) (not (is_known result)))
 //@   ensures[C04] marks_kept: (forall ((k Any)) (! (=> (or (select (marks_of val) k) (select (marks_of other) k)) (select (marks_of result) k)) :pattern ((select (marks_of result) k))))
+//@   ensures[C04] nomarks: (=> (and (not (is_marked val)) (not (is_marked other))) (not (is_marked result)))
 //@   ensures[C06] wf: (wf_deep result)
 //
 // Equals is not verified yet (C03): the clauses below are assumed at its call sites.
 //@ func (cty.Value).Equals
 //@   trusted
 //@   requires (and (wf_deep val) (wf_deep other))
-//@   ensures (and (is_bool_ty (vty result)) (wf_deep result))
+//@   ensures (and (is_bool_ty (vty result)) (wf_deep result) (not (is_null result)))
+//@   ensures (=> (and (is_prim_ty (vty val)) (is_prim_ty (vty other)) (not (is_marked val)) (not (is_marked other))) (not (is_marked result)))
+//@   ensures (=> (and (is_number_ty (vty val)) (is_number_ty (vty other)) (kn val) (kn other) (not (is_marked val)) (not (is_marked other))) (and (not (is_marked result)) (bool_payload result (num_eq val other))))
+//@   ensures (forall ((k Any)) (! (=> (or (select (marks_of val) k) (select (marks_of other) k)) (select (marks_of result) k)) :pattern ((select (marks_of result) k))))
 //@   ensures (=> (and (is_bool_ty (vty val)) (is_bool_ty (vty other)) (kn val) (kn other) (not (is_marked val)) (not (is_marked other))) (and (not (is_marked result)) (bool_payload result (= (bool_of val) (bool_of other)))))
 //@   ensures (=> (and (is_string_ty (vty val)) (is_string_ty (vty other)) (kn val) (kn other) (not (is_marked val)) (not (is_marked other))) (and (not (is_marked result)) (bool_payload result (= (str_of val) (str_of other)))))
 //
